@@ -13,8 +13,22 @@ EXTENDS Routing, Json, IOUtils, TLC
 
 Trace == ndJsonDeserialize(IOEnv.TRACE_FILE)
 
-VARIABLES l, T
-vars == <<l, T>>
+VARIABLES l, T, O
+vars == <<l, T, O>>
+
+\* Container.ServeHTTP = net/http.ServeMux in front of dispatch.  The mux of a container is the one a fresh
+\* container with the same WebServices in the same order has (Registry.tla, Layer B of C11).
+Reg == INSTANCE Registry WITH LegacyRemoveScan <- FALSE, LegacyRootCompare <- FALSE, HandlersSurviveRemove <- TRUE
+CleanPath(p) == /\ ~StrContains(p, "//")
+                /\ \A s \in SeqToSet(SplitOn(p, "/")) : s \notin {".", ".."}
+\* a 301 of the ServeMux is net/http behaviour (and not judged) when the documented pattern scheme
+\* predicts it: the path is not clean, or only path+"/" is a registered pattern
+RedirectPredicted(path, perm) ==
+  \/ ~CleanPath(path)
+  \/ perm + 1 > Len(O)
+  \/ LET ord == O[perm + 1]
+         roots == [i \in 1..Len(ord) |-> T[ord[i]].root]
+     IN Reg!MuxLookup(Reg!FreshMux([services |-> roots, handlers |-> <<>>]), path) = <<"redirect">>
 
 Mis(line, clause, oi, v) ==
   PrintT("MISMATCH " \o ToJson([line |-> line, clause |-> clause, out |-> oi, variant |-> v]))
@@ -86,9 +100,22 @@ CheckOpaque(line, ev) ==
      /\ IF o.k \in {"panic", "route", "redirect"} \/ o.st \in {404, 405, 406, 415} THEN TRUE
         ELSE Mis(line, "C02.status", oi, o.vs[1])
 
+\* a redirect the pattern scheme does not predict: the request was not dispatched although it should have been
+CheckRedirect(line, ev, oi) ==
+  LET o == ev.outs[oi] IN
+  \A i \in 1..Len(o.vs) :
+    LET v == o.vs[i] IN
+    IF v[4] = "S" /\ ~RedirectPredicted(ReqOf(ev, v[3]).path, v[2])
+    THEN /\ Mis(line, "C02.redirect", oi, v)
+         /\ IF OrderQualifies(v[1], T) /\ \E oj \in 1..Len(ev.outs) : oj # oi /\ \E j \in 1..Len(ev.outs[oj].vs) :
+                 LET y == ev.outs[oj].vs[j] IN y[1] = v[1] /\ y[3] = v[3] /\ y[4] = v[4] /\ y[2] # v[2]
+            THEN Mis(line, "C03.order", oi, <<v, v>>) ELSE TRUE
+    ELSE TRUE
+
 CheckReq(line, ev) ==
   LET J == {i \in 1..Len(ev.outs) : Judged(ev.outs[i])} IN
   /\ \A oi \in J : CheckOut(line, ev, oi)
+  /\ \A oi \in {i \in 1..Len(ev.outs) : ev.outs[i].k = "redirect"} : CheckRedirect(line, ev, oi)
   /\ \A oi, oj \in J : (oi < oj /\ Outcome(ev.outs[oi]) # Outcome(ev.outs[oj]))
                           => CheckPair(line, ev, oi, oj)
   /\ CountRelational(ev)
@@ -102,21 +129,29 @@ CheckProbe(line, ev) ==
   /\ \A i \in 1..Len(ev.allow405) :
        IF SeqToSet(ev.allow405[i][2]) = Routable(ev) THEN TRUE
        ELSE Mis(line, "C17.allow405", i, ev.allow405[i])
-  /\ IF CommonFragment(T) /\ Canon(ev.path)   \* where both matching engines are specified
-     THEN /\ IF SeqToSet(ev.opt.allow) = Routable(ev) THEN TRUE ELSE Mis(line, "C17.options", 1, ev.opt.allow)
-          /\ IF SeqToSet(ev.opt.acam) = Routable(ev) THEN TRUE ELSE Mis(line, "C17.options", 2, ev.opt.acam)
-     ELSE TRUE
+  /\ IF SeqToSet(ev.opt.allow) = Routable(ev) THEN TRUE ELSE Mis(line, "C17.options", 1, ev.opt.allow)
+  /\ IF SeqToSet(ev.opt.acam) = Routable(ev) THEN TRUE ELSE Mis(line, "C17.options", 2, ev.opt.acam)
   /\ IF ev.opt.ran = 0 /\ ~ev.opt.panic THEN TRUE ELSE Mis(line, "C17.alone", 1, <<ev.opt.ran>>)
   /\ IF ev.fprobes = ev.nprobes THEN TRUE ELSE Mis(line, "C17.alone", 2, ev.fprobes)
 
-Init == l = 1 /\ T = <<>>
+\* C14: the OPTIONS filter lists the same methods for p and for p/
+CheckSProbe(line, ev) ==
+  IF SlashQualifies(ev.router, T, [path |-> ev.path])
+  THEN /\ Bump(5)
+       /\ IF SeqToSet(ev.allow) = SeqToSet(ev.sallow) /\ SeqToSet(ev.acam) = SeqToSet(ev.sacam) THEN TRUE
+          ELSE Mis(line, "C14.options", 1, <<ev.allow, ev.sallow>>)
+  ELSE TRUE
+
+Init == l = 1 /\ T = <<>> /\ O = <<>>
 Next ==
   /\ l <= Len(Trace)
   /\ l' = l + 1
   /\ LET ev == Trace[l] IN
      /\ T' = IF ev.e = "table" THEN Prepare(ev.services) ELSE T
+     /\ O' = IF ev.e = "table" THEN ev.orders ELSE O
      /\ ev.e = "req" => (IF ev.req.opaque THEN CheckOpaque(l, ev) ELSE CheckReq(l, ev))
      /\ ev.e = "probe" => CheckProbe(l, ev)
+     /\ ev.e = "sprobe" => CheckSProbe(l, ev)
      /\ TLCSet(1, l)
 Spec == Init /\ [][Next]_vars
 
